@@ -116,7 +116,9 @@ pub fn analyze(py: &mut crate::py::PyWorker, src: &str, exec: bool) -> Result<Py
                 if base == "Literal" && args.len() == 1 {
                     if let OTy::Name { base: m, .. } = &args[0] {
                         if let Some((cls, mem)) = m.rsplit_once('.') {
-                            return Some((fl["name"].as_str().unwrap_or("").to_string(), cls.to_string(), mem.to_string(), idx));
+                            // the wire key is the pydantic alias when the attribute had to be renamed (keyword keys)
+                            let key = fl["field_kw"]["alias"].as_str().unwrap_or_else(|| fl["name"].as_str().unwrap_or(""));
+                            return Some((key.to_string(), cls.to_string(), mem.to_string(), idx));
                         }
                     }
                 }
@@ -175,13 +177,14 @@ pub fn analyze(py: &mut crate::py::PyWorker, src: &str, exec: bool) -> Result<Py
                 }
                 // default value must be the same member
                 let fl = &c["fields"][tag_idx];
-                if let Some(vs) = fl["value_src"].as_str() {
+                let default_src = if fl.get("field_kw").is_some() { fl["field_kw_src"]["default"].as_str() } else { fl["value_src"].as_str() };
+                if let Some(vs) = default_src {
                     case.facts.push(("tag-default".into(), vs.to_string()));
                     case.facts.push(("tag-literal".into(), format!("{enum_cls}.{member}")));
                 }
                 let others: Vec<&Value> = c["fields"].as_array().into_iter().flatten().enumerate().filter(|(i, _)| *i != tag_idx).map(|(_, x)| x).collect();
                 if let Some(cf) = others.first() {
-                    case.content.push(("python.variant-class".into(), cf["name"].as_str().unwrap_or("").to_string()));
+                    case.content.push(("python.variant-class".into(), cf["field_kw"]["alias"].as_str().unwrap_or_else(|| cf["name"].as_str().unwrap_or("")).to_string()));
                     let t = ty_of(&cf["ann"]);
                     case.payload_optional = matches!(t, OTy::Opt(_));
                     case.payload = Some(t);
